@@ -244,6 +244,171 @@ fn tip_scenario(rng: &mut StdRng, sc: usize, out: Box<dyn std::io::Write>, _kv: 
     (out, lines, panics)
 }
 
+/// C01: in a state with an outstanding proof request every mutation of the honest answer is
+/// delivered (the state must not change, the peer must be banned), then the honest answer.
+fn mut_scenario(rng: &mut StdRng, sc: usize, out: Box<dyn std::io::Write>, kv: &HashMap<String, String>) -> (Box<dyn std::io::Write>, u64, Vec<String>) {
+    use crate::verif::mutate::last_state_proof_mutants;
+    use crate::verif::project::pname;
+    use crate::verif::client::Proto;
+    use ckb_types::prelude::*;
+    let pow = if rng.gen_bool(0.4) { "eaglesong" } else { "dummy" };
+    let last_n = *[1u64, 2, 3, 5][..].get(rng.gen_range(0..4)).unwrap();
+    let main_len = rng.gen_range(3..=arg_u64(kv, "maxlen", 40) as usize);
+    let with_fork = last_n >= 2 && main_len > 6 && rng.gen_bool(0.5);
+    let built = build_world(rng, pow, main_len, if with_fork { 1 } else { 0 }, ((last_n as usize) / 2).max(1), true);
+    let cfg = Config { last_n, max_outbound: 2, ..Default::default() };
+    let leaves = built.leaves.clone();
+    let mut sim: Sim = new_sim(built.chain, cfg, 2, out, &format!("mut-{}", sc), vec!["peersync"]);
+    let main = leaves[0];
+    let n = sim.chain.blocks[main].num;
+    // pre-state kinds: 0 first proof from genesis; 1 new proof after growth; 2 after restart; 3 reorg to the fork
+    let kind = if with_fork && rng.gen_bool(0.4) { 3 } else { rng.gen_range(0..3) };
+    let first_tip = if kind == 0 { main } else { sim.chain.ancestor_at(main, rng.gen_range(1..=n)).unwrap() };
+    let target_leaf = if kind == 3 { leaves[1] } else { main };
+    let mut env = Env::new(&sim, &[(first_tip, main), (first_tip, target_leaf)]);
+    sim.reset(json!({"mode": "mut", "kind": kind}));
+    env.connect(&mut sim, 0);
+    env.send_last_state(&mut sim, 0);
+    if kind != 0 {
+        while env.answer_proof(&mut sim, 0) {}
+        if kind == 2 {
+            env.restart(&mut sim);
+            env.connect(&mut sim, 0);
+        }
+        if kind == 3 {
+            // peer 1 follows the fork branch
+            let leaf = env.peers[1].leaf;
+            env.peers[1].server.tip = leaf;
+            env.connect(&mut sim, 1);
+            env.send_last_state(&mut sim, 1);
+        } else {
+            env.grow(&sim, 0, u64::MAX / 2);
+            env.send_last_state(&mut sim, 0);
+            env.refresh(&mut sim);
+        }
+    }
+    let who = if kind == 3 { 1 } else { 0 };
+    let p = env.peers[who].idx;
+    let maxmut = arg_u64(kv, "maxmut", 60) as usize;
+    if let Some(req) = sim.take_request(p, crate::verif::sim::as_get_last_state_proof) {
+        let server = env.peers[who].server.clone();
+        if let Ok(Some(plan)) = server.plan_last_state_proof(&sim.chain, &req) {
+            let total = plan.reorg.len() + plan.samples.len() + plan.last_n.len();
+            // positions: first, last, first of each section, and a random one
+            let mut pos = vec![0usize, total.saturating_sub(1), plan.reorg.len(), plan.reorg.len() + plan.samples.len()];
+            if total > 0 {
+                pos.push(rng.gen_range(0..total));
+            }
+            pos.sort();
+            pos.dedup();
+            let all = arg_u64(kv, "allpos", 0) == 1;
+            let mut muts = last_state_proof_mutants(&sim.chain, &req, &plan, if all { None } else { Some(&pos) });
+            // a seeded subset when there are too many
+            while muts.len() > maxmut {
+                let k = rng.gen_range(0..muts.len());
+                muts.swap_remove(k);
+            }
+            for m in muts {
+                let mut attrs = json!({"match": "ok", "root": "ok", "pow": "ok", "cont": "ok", "mmr": "ok", "tau": "ok", "td": "ok"});
+                attrs[m.attr] = json!("bad");
+                let mut args = Env::plan_args(&sim, p, &plan, &m.label, attrs);
+                // the mutated header list is not chain-derived: the spec must not interpret it
+                args["reorg"] = json!([]);
+                args["samples"] = json!([]);
+                args["lastn"] = json!([]);
+                let bytes = m.msg.as_bytes();
+                sim.step("Proof", args, |c| c.deliver(Proto::Lc, p, bytes));
+            }
+            // finally the honest answer: must still be accepted
+            let msg = packed_msg(&sim, &plan);
+            let args = Env::plan_args(&sim, p, &plan, "honest", crate::verif::env::true_attrs());
+            sim.step("Proof", args, |c| c.deliver(Proto::Lc, p, msg));
+        } else {
+            sim.inbox.clear();
+        }
+    }
+    let _ = pname(p);
+    let lines = sim.lines;
+    let panics = sim.panics.clone();
+    let out = std::mem::replace(&mut sim.out, Box::new(std::io::sink()));
+    (out, lines, panics)
+}
+
+/// C01: a deviating peer serves (by the honest algorithm) a heavier branch that contains one
+/// unmined or non-committing block; an honest peer serves the main chain.
+fn adv_scenario(rng: &mut StdRng, sc: usize, out: Box<dyn std::io::Write>, _kv: &HashMap<String, String>) -> (Box<dyn std::io::Write>, u64, Vec<String>) {
+    use crate::verif::world::WBlock;
+    let pow = if rng.gen_bool(0.7) { "eaglesong" } else { "dummy" };
+    let last_n = *[2u64, 3, 5][..].get(rng.gen_range(0..3)).unwrap();
+    let main_len = rng.gen_range(6..=30usize);
+    let p = ChainParams { pow: pow.to_owned(), epoch_len: (3, 6), vary_difficulty: true };
+    let mut chain = SimChain::new(pow, &gen::default_scripts());
+    let main = gen::extend(&mut chain, 0, main_len, &p, rng);
+    // the adversarial branch: forks `depth` below the main tip, is 1-2 blocks longer
+    let depth = rng.gen_range(1..=(last_n as usize - 1).max(1)).min(main_len - 1);
+    let fork_at = chain.ancestor_at(main, (main_len - depth) as u64).unwrap();
+    let len = depth + rng.gen_range(1..=2usize);
+    let flaw_pos = rng.gen_range(0..len);
+    let unmined = pow == "eaglesong" && rng.gen_bool(0.6);
+    let mut cur = fork_at;
+    for k in 0..len {
+        let (epoch, diff) = gen::next_epoch(&chain, cur, &p, rng);
+        let flawed = k == flaw_pos;
+        cur = chain.add_block(&WBlock {
+            parent: cur as i64,
+            diff,
+            epoch,
+            pow: !(flawed && unmined),
+            root: !(flawed && !unmined),
+            txs: vec![],
+        });
+    }
+    let adv = cur;
+    let cfg = Config { last_n, max_outbound: 2, ..Default::default() };
+    let mut sim: Sim = new_sim(chain, cfg, 2, out, &format!("adv-{}", sc), vec!["peersync"]);
+    let start = sim.chain.ancestor_at(main, rng.gen_range(1..=(main_len - depth) as u64)).unwrap();
+    let mut env = Env::new(&sim, &[(adv, adv), (start, main)]);
+    sim.reset(json!({"mode": "adv", "flaw": if unmined { "unmined" } else { "unrooted" }}));
+    for _ in 0..14 {
+        let i = rng.gen_range(0..2usize);
+        match rng.gen_range(0..10) {
+            0..=2 => {
+                if !env.peers[i].connected {
+                    env.connect(&mut sim, i);
+                }
+                env.send_last_state(&mut sim, i);
+                env.enforce_bans(&mut sim);
+            }
+            3..=6 => {
+                if env.peers[i].connected {
+                    env.answer_proof(&mut sim, i);
+                    env.enforce_bans(&mut sim);
+                }
+            }
+            7 => {
+                env.grow(&sim, 1, 3);
+            }
+            8 => env.refresh(&mut sim),
+            _ => {
+                sim.advance(1);
+                env.refresh(&mut sim);
+            }
+        }
+    }
+    let lines = sim.lines;
+    let panics = sim.panics.clone();
+    let out = std::mem::replace(&mut sim.out, Box::new(std::io::sink()));
+    (out, lines, panics)
+}
+
+fn packed_msg(sim: &Sim, plan: &crate::verif::honest::ProofPlan) -> ckb_network::bytes::Bytes {
+    use ckb_types::prelude::*;
+    ckb_types::packed::LightClientMessage::new_builder()
+        .set(crate::verif::honest::HonestPeer::encode_plan(&sim.chain, plan))
+        .build()
+        .as_bytes()
+}
+
 pub fn run(kv: &HashMap<String, String>) -> i32 {
     let seed = arg_u64(kv, "seed", 1);
     let n = arg_u64(kv, "n", 5) as usize;
@@ -257,6 +422,8 @@ pub fn run(kv: &HashMap<String, String>) -> i32 {
         let (o, lines, p) = match mode.as_str() {
             "honest" => honest_scenario(&mut rng, sc, out, kv),
             "tip" => tip_scenario(&mut rng, sc, out, kv),
+            "mut" => mut_scenario(&mut rng, sc, out, kv),
+            "adv" => adv_scenario(&mut rng, sc, out, kv),
             _ => {
                 eprintln!("unknown mode {}", mode);
                 return 2;
